@@ -431,3 +431,240 @@ Qed.
 Lemma presented_filtrate_depth : forall prefix e,
   length (presented prefix true e Filtrate) = length prefix + length (e_path e).
 Proof. intros. cbn [presented]. apply app_length. Qed.
+
+(* ==== C02 / C03 at the level of what a walk yields ================================================================= *)
+Definition yields (l : list ritem) : list rpath :=
+  flat_map (fun r => match r with REntry e Filtrate _ => [e_path e] | _ => [] end) l.
+
+Lemma yields_app : forall a b, yields (a ++ b) = yields a ++ yields b.
+Proof. intros. unfold yields. apply flat_map_app. Qed.
+
+(* every entry of a tree, in pre-order (an unreadable directory is an entry; an error node is not) *)
+Fixpoint all_entries (p : rpath) (n : node) : list rpath :=
+  match n with
+  | NFile | NDirErr => [p]
+  | NErr => []
+  | NDir kids => p :: (fix go (ks : list (name * node)) : list rpath :=
+                         match ks with [] => [] | k :: ks' => all_entries (p ++ [fst k]) (snd k) ++ go ks' end) kids
+  end.
+
+Lemma all_entries_extend : forall n p q, In q (all_entries p n) -> exists r, q = p ++ r.
+Proof.
+  induction n as [|kids IH| |] using node_ind'; intros p q H; cbn [all_entries] in H.
+  - destruct H as [<-|[]]. exists []. symmetry. apply app_nil_r.
+  - destruct H as [<-|H]; [exists []; symmetry; apply app_nil_r|].
+    induction IH as [|k ks Hk _ IHks]; [contradiction|]. apply in_app_or in H. destruct H as [H|H]; [|apply IHks; exact H].
+    destruct (Hk _ _ H) as [r ->]. exists ([fst k] ++ r). apply eq_sym, app_assoc.
+  - destruct H as [<-|[]]. exists []. symmetry. apply app_nil_r.
+  - contradiction.
+Qed.
+
+Section GlobWalk.
+Variable prefix : rpath.
+Variable progs : list (name -> bool).
+Variable complete : str -> bool.
+(* pruning soundness: whatever the complete program accepts, every component program accepts at its own position *)
+Hypothesis Hprune : forall rel, complete (join_path rel) = true ->
+  forall i c pr, nth_error rel i = Some c -> nth_error progs i = Some pr -> pr c = true.
+
+Definition gl : layer := glob_layer prefix progs complete.
+Definition keeps (q : rpath) : bool :=
+  complete (join_path (prefix ++ q)) && Nat.leb (length progs) (length (prefix ++ q)).
+
+Lemma zip_loop_keep_len : forall cands ps whole, zip_loop cands ps whole = Keep -> length ps <= length cands.
+Proof.
+  induction cands as [|c cands IH]; intros ps whole H.
+  - destruct ps; cbn in H; [cbn; lia|discriminate].
+  - destruct ps as [|pr ps]; [cbn; lia|]. cbn [zip_loop] in H. cbn [length].
+    destruct (pr c); [|destruct cands, ps; discriminate].
+    destruct cands as [|c' cands'], ps as [|pr' ps']; cbn [length]; try lia; try (apply IH in H; cbn [length] in H; lia);
+      try (destruct whole; discriminate).
+Qed.
+
+Lemma zip_loop_file : forall cands ps whole, zip_loop cands ps whole = VFile -> whole = false \/ length cands < length ps.
+Proof.
+  induction cands as [|c cands IH]; intros ps whole H.
+  - destruct ps; cbn in H; [destruct whole; [discriminate|left; reflexivity]|right; cbn; lia].
+  - destruct ps as [|pr ps]; cbn [zip_loop] in H; [destruct whole; [discriminate|left; reflexivity]|].
+    destruct (pr c); [|destruct cands, ps; discriminate].
+    destruct cands as [|c' cands'], ps as [|pr' ps'].
+    + destruct whole; [discriminate|left; reflexivity].
+    + right. cbn. lia.
+    + destruct (IH _ _ H) as [Hw|Hl]; [left; exact Hw|right; cbn [length] in *; lia].
+    + destruct (IH _ _ H) as [Hw|Hl]; [left; exact Hw|right; cbn [length] in *; lia].
+Qed.
+
+Lemma nth_error_skipn : forall {A} (l : list A) d i, nth_error (skipn d l) i = nth_error l (d + i).
+Proof. induction l as [|a l IH]; intros [|d] i; cbn; try reflexivity; [destruct i; reflexivity|apply IH]. Qed.
+
+(* a discarded directory and everything beneath it are rejected by the complete program *)
+Lemma tree_verdict_rejects_subtree : forall e t r,
+  gl e t = VTree -> complete (join_path (prefix ++ (e_path e ++ r))) = false.
+Proof.
+  intros e t r H. unfold gl, glob_layer in H. apply zip_loop_tree in H. destruct H as [i [c [pr [Hc [Hp Hr]]]]].
+  rewrite nth_error_skipn in Hc. rewrite nth_error_skipn in Hp.
+  destruct (complete (join_path (prefix ++ e_path e ++ r))) eqn:E; [|reflexivity].
+  rewrite (Hprune _ E (Nat.pred (length (e_path e)) + i) c pr) in Hr; [discriminate| |exact Hp].
+  rewrite app_assoc. rewrite nth_error_app1; [exact Hc|]. apply nth_error_Some. rewrite Hc. discriminate.
+Qed.
+
+Lemma final_tag_single : forall (l : layer) e, final_tag [l] e = fst (step_layer (l e Filtrate) Filtrate).
+Proof. intros l e. unfold final_tag. cbn [through]. destruct (step_layer (l e Filtrate) Filtrate). reflexivity. Qed.
+
+Lemma filter_all_false : forall {A} (f : A -> bool) l, (forall a, In a l -> f a = false) -> filter f l = [].
+Proof.
+  induction l as [|a l IH]; intros H; [reflexivity|]. cbn [filter]. rewrite (H a (or_introl eq_refl)).
+  apply IH. intros b Hb. apply H. right. exact Hb.
+Qed.
+
+Lemma verdict_keep : forall e t, gl e t = Keep -> keeps (e_path e) = true.
+Proof.
+  intros e t Ev. unfold gl, glob_layer in Ev. unfold keeps. rewrite (zip_loop_keep _ _ _ Ev).
+  apply zip_loop_keep_len in Ev. rewrite !skipn_length in Ev.
+  apply andb_true_intro. split; [reflexivity|]. apply Nat.leb_le. rewrite app_length in *. lia.
+Qed.
+
+Lemma verdict_file : forall e t, gl e t = VFile -> keeps (e_path e) = false.
+Proof.
+  intros e t Ev. unfold gl, glob_layer in Ev. unfold keeps. apply zip_loop_file in Ev. destruct Ev as [Ev|Ev].
+  - rewrite Ev. reflexivity.
+  - rewrite !skipn_length in Ev. apply andb_false_iff. right. apply Nat.leb_gt. rewrite app_length in *. lia.
+Qed.
+
+Lemma verdict_tree : forall e t r, gl e t = VTree -> keeps (e_path e ++ r) = false.
+Proof. intros e t r Ev. unfold keeps. rewrite (tree_verdict_rejects_subtree e t r Ev). reflexivity. Qed.
+
+Lemma yields_shown : forall d e,
+  yields (shown [gl] 0 d e) = filter keeps [e_path e] \/ (gl e Filtrate = VTree /\ yields (shown [gl] 0 d e) = []).
+Proof.
+  intros d e. unfold shown. cbn [Nat.ltb Nat.leb]. unfold yields. cbn [flat_map]. rewrite final_tag_single.
+  destruct (gl e Filtrate) eqn:Ev; cbn [step_layer fst filter app].
+  - left. rewrite (verdict_keep e Filtrate Ev). reflexivity.
+  - left. rewrite (verdict_file e Filtrate Ev). reflexivity.
+  - right. split; reflexivity.
+Qed.
+
+(* C02: the walk of a glob yields exactly the entries that the complete program matches (and that have at least as many
+   components as there are component programs), each once, in pre-order; pruning never loses one *)
+Theorem glob_walk_yields : forall n d p,
+  yields (spec [gl] 0 None d p n) = filter keeps (all_entries p n).
+Proof.
+  induction n as [|kids IH| |] using node_ind'; intros d p.
+  - cbn [spec all_entries]. destruct (yields_shown d (mkEntry p false)) as [H|[Ev H]]; rewrite H; [reflexivity|].
+    cbn [filter]. pose proof (verdict_tree _ Filtrate [] Ev) as Hk. cbn [e_path] in Hk. rewrite app_nil_r in Hk. rewrite Hk. reflexivity.
+  - cbn [spec all_entries]. rewrite yields_app.
+    set (e := mkEntry p true).
+    set (rest := (fix go (ks : list (name * node)) : list rpath :=
+                    match ks with [] => [] | k :: ks' => all_entries (p ++ [fst k]) (snd k) ++ go ks' end) kids).
+    assert (Hkids : yields ((fix go (ks : list (name * node)) : list ritem :=
+                       match ks with [] => [] | k :: ks' => spec [gl] 0 None (S d) (p ++ [fst k]) (snd k) ++ go ks' end) kids)
+                    = filter keeps rest).
+    { subst rest. induction IH as [|k ks Hk _ IHks]; [reflexivity|]. rewrite yields_app, filter_app, Hk, IHks. reflexivity. }
+    unfold pruned. cbn [Nat.ltb Nat.leb negb andb over orb]. rewrite final_tag_single.
+    destruct (yields_shown d e) as [H|[Ev H]].
+    + rewrite H. destruct (gl e Filtrate) eqn:Ev; cbn [step_layer fst orb].
+      * rewrite Hkids. change (p :: rest) with ([e_path e] ++ rest). rewrite filter_app. reflexivity.
+      * rewrite Hkids. change (p :: rest) with ([e_path e] ++ rest). rewrite filter_app. reflexivity.
+      * (* a tree verdict: nothing at or beneath the directory is kept *)
+        assert (Hall : filter keeps (p :: rest) = []).
+        { apply filter_all_false. intros q Hq. destruct (all_entries_extend (NDir kids) p q Hq) as [r ->].
+          apply (verdict_tree e Filtrate r Ev). }
+        rewrite Hall. assert (Hp : filter keeps [e_path e] = []).
+        { apply filter_all_false. intros q [<-|[]]. pose proof (verdict_tree e Filtrate [] Ev) as Hk. rewrite app_nil_r in Hk. exact Hk. }
+        rewrite Hp. reflexivity.
+    + rewrite H, Ev. cbn [step_layer fst app orb]. unfold yields. cbn [flat_map]. symmetry. apply filter_all_false. intros q Hq.
+      destruct (all_entries_extend (NDir kids) p q Hq) as [r ->]. apply (verdict_tree e Filtrate r Ev).
+  - cbn [spec all_entries]. rewrite yields_app.
+    assert (Herr : forall b : bool, yields (if b then [] else [RError p d]) = []) by (intros []; reflexivity). rewrite Herr, app_nil_r.
+    destruct (yields_shown d (mkEntry p true)) as [H|[Ev H]]; rewrite H; [reflexivity|].
+    cbn [filter]. pose proof (verdict_tree _ Filtrate [] Ev) as Hk. cbn [e_path] in Hk. rewrite app_nil_r in Hk. rewrite Hk. reflexivity.
+  - reflexivity.
+Qed.
+
+End GlobWalk.
+
+Section NotWalk.
+Variable ls : list layer.
+Variables exh nonexh : option (str -> bool).
+(* a negation over a walk whose entries present their own path (path walks, prefix-free glob walks) *)
+Definition nl : layer := not_layer [] false exh nonexh.
+Definition matched (q : rpath) : bool := opt_match exh (join_path q) || opt_match nonexh (join_path q).
+(* what the exhaustiveness verdict promises: beneath a path the exhaustive program matches, the negation matches everything *)
+Hypothesis Hexh : forall p r, opt_match exh (join_path p) = true -> matched (p ++ r) = true.
+
+Lemma nl_verdict : forall e t,
+  nl e t = if opt_match exh (join_path (e_path e)) then VTree else if opt_match nonexh (join_path (e_path e)) then VFile else Keep.
+Proof.
+  intros e t. unfold nl, not_layer, opt_match. destruct t; cbn [presented]; destruct exh as [f|], nonexh as [g|]; reflexivity.
+Qed.
+
+Lemma spec_extend : forall l mind maxd n d p q, In q (yields (spec l mind maxd d p n)) -> exists r, q = p ++ r.
+Proof.
+  intros l mind maxd n. induction n as [|kids IH| |] using node_ind'; intros d p q H.
+  - cbn [spec] in H. unfold shown, yields in H. destruct (Nat.ltb d mind); cbn in H; [contradiction|].
+    destruct (final_tag l _); cbn in H; try contradiction. destruct H as [<-|[]]. exists []. symmetry. apply app_nil_r.
+  - cbn [spec] in H. rewrite yields_app in H. apply in_app_or in H. destruct H as [H|H].
+    + unfold shown, yields in H. destruct (Nat.ltb d mind); cbn in H; [contradiction|].
+      destruct (final_tag l _); cbn in H; try contradiction. destruct H as [<-|[]]. exists []. symmetry. apply app_nil_r.
+    + destruct (pruned l mind d _ || over maxd (S d)); [contradiction|].
+      induction IH as [|k ks Hk _ IHks]; [contradiction|]. rewrite yields_app in H. apply in_app_or in H.
+      destruct H as [H|H]; [|apply IHks; exact H]. destruct (Hk _ _ _ H) as [r ->]. exists ([fst k] ++ r). apply eq_sym, app_assoc.
+  - cbn [spec] in H. rewrite yields_app in H. apply in_app_or in H. destruct H as [H|H].
+    + unfold shown, yields in H. destruct (Nat.ltb d mind); cbn in H; [contradiction|].
+      destruct (final_tag l _); cbn in H; try contradiction. destruct H as [<-|[]]. exists []. symmetry. apply app_nil_r.
+    + destruct (pruned l mind d _ || over maxd (S d)); cbn in H; contradiction.
+  - cbn in H. contradiction.
+Qed.
+
+Lemma shown_not : forall mind d e,
+  yields (shown (ls ++ [nl]) mind d e) = filter (fun q => negb (matched q)) (yields (shown ls mind d e)).
+Proof.
+  intros mind d e. unfold shown. destruct (Nat.ltb d mind); [reflexivity|]. unfold yields. cbn [flat_map]. rewrite !app_nil_r.
+  rewrite final_tag_snoc, nl_verdict. unfold matched.
+  destruct (final_tag ls e); cbn [filter];
+    destruct (opt_match exh (join_path (e_path e))), (opt_match nonexh (join_path (e_path e))); reflexivity.
+Qed.
+
+(* C03: `not` yields exactly the entries of the underlying walk that the negation does not match; discarding whole
+   trees changes nothing, given what the exhaustiveness verdict promises *)
+Theorem not_walk_yields : forall mind maxd n d p,
+  yields (spec (ls ++ [nl]) mind maxd d p n) = filter (fun q => negb (matched q)) (yields (spec ls mind maxd d p n)).
+Proof.
+  intros mind maxd n. induction n as [|kids IH| |] using node_ind'; intros d p.
+  - cbn [spec]. apply shown_not.
+  - cbn [spec]. rewrite !yields_app, filter_app, shown_not. f_equal.
+    set (e := mkEntry p true).
+    assert (Hkids : yields ((fix go (ks : list (name * node)) : list ritem :=
+                       match ks with [] => [] | k :: ks' => spec (ls ++ [nl]) mind maxd (S d) (p ++ [fst k]) (snd k) ++ go ks' end) kids)
+                    = filter (fun q => negb (matched q))
+                        (yields ((fix go (ks : list (name * node)) : list ritem :=
+                           match ks with [] => [] | k :: ks' => spec ls mind maxd (S d) (p ++ [fst k]) (snd k) ++ go ks' end) kids))).
+    { induction IH as [|k ks Hk _ IHks]; [reflexivity|]. rewrite !yields_app, filter_app, Hk, IHks. reflexivity. }
+    unfold pruned. rewrite final_tag_snoc, nl_verdict.
+    destruct (over maxd (S d)); [rewrite !orb_true_r; reflexivity|]. rewrite !orb_false_r.
+    destruct (Nat.ltb d mind); cbn [negb andb]; [exact Hkids|].
+    destruct (final_tag ls e) eqn:Et; cbn [step_layer fst].
+    + destruct (opt_match exh (join_path (e_path e))) eqn:Ex; cbn [step_layer fst].
+      * (* the negation discards the tree: everything beneath is matched by the negation anyway *)
+        symmetry. apply filter_all_false. intros q Hq. apply negb_false_iff.
+        assert (Hext : exists r, q = p ++ r).
+        { clear Hkids. induction kids as [|k ks IHk]; [contradiction|]. rewrite yields_app in Hq. apply in_app_or in Hq.
+          destruct Hq as [Hq|Hq]; [|inversion IH; subst; apply IHk; assumption].
+          destruct (spec_extend _ _ _ _ _ _ _ Hq) as [r ->]. exists ([fst k] ++ r). apply eq_sym, app_assoc. }
+        destruct Hext as [r ->]. apply Hexh. exact Ex.
+      * destruct (opt_match nonexh (join_path (e_path e))); cbn [step_layer fst]; exact Hkids.
+    + destruct (opt_match exh (join_path (e_path e))) eqn:Ex; cbn [step_layer fst].
+      * symmetry. apply filter_all_false. intros q Hq. apply negb_false_iff.
+        assert (Hext : exists r, q = p ++ r).
+        { clear Hkids. induction kids as [|k ks IHk]; [contradiction|]. rewrite yields_app in Hq. apply in_app_or in Hq.
+          destruct Hq as [Hq|Hq]; [|inversion IH; subst; apply IHk; assumption].
+          destruct (spec_extend _ _ _ _ _ _ _ Hq) as [r ->]. exists ([fst k] ++ r). apply eq_sym, app_assoc. }
+        destruct Hext as [r ->]. apply Hexh. exact Ex.
+      * destruct (opt_match nonexh (join_path (e_path e))); cbn [step_layer fst]; exact Hkids.
+    + destruct (opt_match exh (join_path (e_path e))), (opt_match nonexh (join_path (e_path e))); reflexivity.
+  - cbn [spec]. rewrite !yields_app, filter_app, shown_not. f_equal.
+    assert (Herr : forall b : bool, yields (if b then [] else [RError p d]) = []) by (intros []; reflexivity). rewrite !Herr. reflexivity.
+  - reflexivity.
+Qed.
+
+End NotWalk.
